@@ -885,3 +885,596 @@ Proof.
     { rewrite gate_check_pass; [reflexivity | left; cbn; congruence]. }
     destruct (run_req_admitted c _ r s' o Hg H H0) as (_ & _ & _ & [(Hc & _) | (_ & Hz)]); auto.
 Qed.
+
+(* ====================================================================== *)
+(* 10. requests that overlap ([cop], [cstep], [crun] of Model.v)           *)
+
+(* run() is its phases *)
+Lemma run_req_phases c s r :
+  run_req c s r =
+  match arrive c s r with
+  | (s1, Some res) => (s1, res)
+  | (s2, None) => finish_z c (call_z c s2 (dur r)) r
+  end.
+Proof.
+  unfold run_req, arrive, finish_z, finish_y, fail_req.
+  match goal with |- context [if enabled c then ?A else ?B] =>
+    destruct (if enabled c then A else B) as [b1 adm] end.
+  destruct adm; cbn [negb]; [|reflexivity].
+  match goal with |- context [cache_probe c ?S ?K] => destruct (cache_probe c S K) as [s2 [res|]] end;
+    [reflexivity|].
+  destruct (zb r); [destruct (yb r)|]; reflexivity.
+Qed.
+
+Lemma advance_call_z c s d : advance (call_z c s 0) d = call_z c s d.
+Proof. unfold advance, call_z. cbn. f_equal. lia. Qed.
+
+(* the answer [o] of the agents is recorded at clock value [t] on the breaker [b] (the breaker as it is at that
+   moment - for a request that was suspended not the one it was admitted by), giving [b'] *)
+Definition recorded (c : cfg) (t : Z) (b : breaker) (o : result) (b' : breaker) : Prop :=
+  ((exists z y, o = gate_result (glogic c) z y) /\ b' = classify c t o b) \/
+  (o = res_error /\ b' = record_failure (threshold c) t b).
+
+Lemma recorded_shape c t b o b' :
+  recorded c t b o b' ->
+  r_cached o = false /\ is_co (r_action o) = false /\ (r_blocked o = false -> r_success o = true).
+Proof.
+  intros [[(z & y & ->) _] | [-> _]].
+  - pose proof (gate_result_shape (glogic c) z y) as (H1 & H2 & _ & H4). auto.
+  - repeat split; cbn; congruence.
+Qed.
+
+Lemma recorded_binv c t b o b' :
+  binv (threshold c) b -> recorded c t b o b' -> binv (threshold c) b'.
+Proof. intros Hb [[_ ->] | [_ ->]]; auto using binv_classify, binv_failure. Qed.
+
+Lemma recorded_count c t b o b' :
+  interim c = false -> binv (threshold c) b -> recorded c t b o b' ->
+  fcount b' <= fcount b + (if failureb o then 1 else 0) /\
+  trips b <= trips b' /\ (trips b < trips b' -> threshold c <= fcount b').
+Proof.
+  intros Hi Hb R.
+  destruct (recorded_shape c t b o b' R) as (Hc & _ & Hs).
+  assert (Hfail : failureb o = true ->
+            fcount (record_failure (threshold c) t b) <= fcount b + (if failureb o then 1 else 0) /\
+            trips b <= trips (record_failure (threshold c) t b) /\
+            (trips b < trips (record_failure (threshold c) t b) ->
+             threshold c <= fcount (record_failure (threshold c) t b))).
+  { intros ->. pose proof (record_failure_count (threshold c) t b Hb) as (F1 & F2 & F3). lia. }
+  destruct R as [[_ ->] | [-> ->]].
+  - destruct (classify_cases_strict c t o b Hi Hs) as [-> | [-> | (Hbl & Hef & ->)]].
+    + destruct (failureb o); lia.
+    + pose proof (record_success_spec t b) as S. cbv zeta in S. destruct S as (_ & St & Sm).
+      destruct Hb as [Hb0 _].
+      destruct (circ b); destruct Sm as [_ Sf]; destruct (failureb o); lia.
+    + apply Hfail. unfold failureb. rewrite Hbl, Hc, Hef. reflexivity.
+  - apply Hfail. reflexivity.
+Qed.
+
+(* whatever is recorded while the breaker is OPEN leaves it OPEN: a success does not close it and does not clear
+   the count, a failure counts and restarts the timeout *)
+Lemma recorded_open c t b o b' :
+  circ b = Open -> recorded c t b o b' ->
+  circ b' = Open /\ fcount b <= fcount b' /\ trips b' = trips b /\
+  (last_failure b' = last_failure b \/ last_failure b' = Some t).
+Proof.
+  intros Ho R.
+  assert (HS : circ (record_success t b) = Open /\ fcount b <= fcount (record_success t b) /\
+               trips (record_success t b) = trips b /\ last_failure (record_success t b) = last_failure b).
+  { pose proof (record_success_spec t b) as S. cbv zeta in S. rewrite Ho in S.
+    destruct S as (Sl & St & Sc & Sf). repeat split; auto. lia. }
+  assert (HF : circ (record_failure (threshold c) t b) = Open /\
+               fcount b <= fcount (record_failure (threshold c) t b) /\
+               trips (record_failure (threshold c) t b) = trips b /\
+               last_failure (record_failure (threshold c) t b) = Some t).
+  { pose proof (record_failure_spec (threshold c) t b) as S. cbv zeta in S. rewrite Ho in S.
+    destruct S as (Sf & Sl & _ & _ & Sc & St). repeat split; auto. lia. }
+  destruct R as [[_ ->] | [_ ->]].
+  - destruct (classify_cases c t o b) as [-> | [-> | ->]].
+    + repeat split; auto. lia.
+    + destruct HS as (? & ? & ? & ?). auto.
+    + destruct HF as (? & ? & ? & ?). auto.
+  - destruct HF as (? & ? & ? & ?). auto.
+Qed.
+
+Lemma fail_req_spec c s s' o :
+  fail_req c s = (s', o) ->
+  recorded c (now s) (br s) o (br s') /\ now s' = now s /\ zcalls s' = zcalls s /\ ycalls s' = ycalls s /\
+  spent s' = spent s /\ cache s' = cache s.
+Proof.
+  unfold fail_req. intros H; inversion H; subst; clear H. cbn. repeat split; auto.
+  right. split; reflexivity.
+Qed.
+
+Lemma finish_y_spec c s r z s' o :
+  finish_y c s r z = (s', o) ->
+  recorded c (now s) (br s) o (br s') /\ now s' = now s /\ zcalls s' = zcalls s /\ ycalls s' = ycalls s /\
+  spent s' = spent s /\ (cache_ok (cache s) -> cache_ok (cache s')).
+Proof.
+  unfold finish_y. destruct (yb r) as [y|].
+  - intros H; inversion H; subst; clear H.
+    pose proof (gate_result_shape (glogic c) z y) as (_ & Hnco & _ & _).
+    match goal with |- context [cache_store c ?S ?K ?R] => pose proof (cache_store_spec c S K R) as CS end.
+    cbv zeta in CS. cbn in CS. destruct CS as (Cb & Cz & Cy & Cs & Cn & Cok).
+    cbn. rewrite Cb, Cz, Cy, Cs, Cn. repeat split; auto.
+    left. split; [exists z, y; reflexivity | reflexivity].
+  - intros H. apply fail_req_spec in H. destruct H as (R & Hn & Hz & Hy & Hs & Hc).
+    repeat split; auto. intros Hok. rewrite Hc. exact Hok.
+Qed.
+
+Lemma finish_z_spec c s r s' o :
+  finish_z c s r = (s', o) ->
+  recorded c (now s) (br s) o (br s') /\ now s' = now s /\ zcalls s' = zcalls s /\
+  (ycalls s' = ycalls s \/ ycalls s' = ycalls s + 1) /\
+  spent s' = spent s + cost c * (ycalls s' - ycalls s) /\
+  (cache_ok (cache s) -> cache_ok (cache s')).
+Proof.
+  unfold finish_z. destruct (zb r) as [z|].
+  - intros H. apply finish_y_spec in H. cbn in H. destruct H as (R & Hn & Hz & Hy & Hs & Hc).
+    repeat split; auto. rewrite Hs, Hy. lia.
+  - intros H. apply fail_req_spec in H. destruct H as (R & Hn & Hz & Hy & Hs & Hc).
+    repeat split; auto; [rewrite Hs, Hy; lia|]. intros Hok. rewrite Hc. exact Hok.
+Qed.
+
+(* a suspended request goes on: its answer is recorded on the breaker of that moment *)
+Lemma end_req_spec c s f s' o :
+  end_req c s f = (s', o) ->
+  recorded c (now s') (br s) o (br s') /\
+  (now s' = now s \/ now s' = now s + dur (f_req f)) /\ zcalls s' = zcalls s /\
+  (ycalls s' = ycalls s \/ ycalls s' = ycalls s + 1) /\
+  spent s' = spent s + cost c * (ycalls s' - ycalls s) /\
+  (cache_ok (cache s) -> cache_ok (cache s')).
+Proof.
+  unfold end_req. destruct (f_place f).
+  - intros H. apply finish_z_spec in H. cbn in H. destruct H as (R & Hn & Hz & Hy & Hs & Hc).
+    rewrite Hn. repeat split; auto.
+  - destruct (zb (f_req f)) as [z|].
+    + intros H. apply finish_y_spec in H. destruct H as (R & Hn & Hz & Hy & Hs & Hc).
+      rewrite Hn. repeat split; auto. rewrite Hs, Hy. lia.
+    + intros H. apply fail_req_spec in H. destruct H as (R & Hn & Hz & Hy & Hs & Hc).
+      rewrite Hn. repeat split; auto; [rewrite Hs, Hy; lia|]. intros Hok. rewrite Hc. exact Hok.
+Qed.
+
+(* the part of run() in front of the agents *)
+Lemma arrive_spec c s r s1 o :
+  arrive c s r = (s1, o) ->
+  br s1 = fst (gate_check c s) /\ now s1 = now s /\ zcalls s1 = zcalls s /\ ycalls s1 = ycalls s /\
+  spent s1 = spent s /\ (cache_ok (cache s) -> cache_ok (cache s1)) /\
+  match o with
+  | Some res =>
+      (snd (gate_check c s) = false /\ res = res_circuit_open /\ untouched s s1) \/
+      (snd (gate_check c s) = true /\ r_cached res = true /\ cache s1 = cache s /\
+       (cache_ok (cache s) -> is_co (r_action res) = false))
+  | None => snd (gate_check c s) = true
+  end.
+Proof.
+  unfold arrive, gate_check. cbn [bump_requests now br].
+  destruct (if enabled c then check_circuit (timeout c) (now s) (br s) else (br s, true))
+    as [b1 adm] eqn:Hg.
+  cbn [fst snd].
+  destruct adm; cbn [negb].
+  2:{ intros H; inversion H; subst; clear H.
+      assert (b1 = br s) as ->.
+      { destruct (enabled c); [|inversion Hg; reflexivity].
+        apply check_circuit_spec in Hg.
+        destruct Hg as [(_ & -> & _) | [(_ & _ & -> & _) | (_ & E & _)]]; auto; discriminate. }
+      cbn. repeat split; auto. left. unfold untouched; cbn. repeat split; reflexivity. }
+  match goal with |- context [cache_probe c ?S ?K] => destruct (cache_probe c S K) as [s2 hit] eqn:Hp end.
+  apply cache_probe_spec in Hp. cbn in Hp.
+  destruct Hp as (Hbr & Hz & Hy & Hsp & Hnow & _ & Hck & Hoff & Hhit).
+  destruct hit as [res|]; intros H; inversion H; subst; clear H.
+  - destruct Hhit as [-> Hco]. cbn. repeat split; auto; right; repeat split; auto.
+  - repeat split; auto.
+Qed.
+
+Lemma begin_req_spec c s r w s' o :
+  begin_req c s r w = (s', o) ->
+  let b1 := fst (gate_check c s) in
+  (cache_ok (cache s) -> cache_ok (cache s')) /\ now s <= now s' + (if 0 <=? dur r then 0 else - dur r) /\
+  match o with
+  | None =>      (* admitted, now suspended inside an agent *)
+      snd (gate_check c s) = true /\ br s' = b1 /\ zcalls s' = zcalls s + 1
+  | Some res =>
+      (snd (gate_check c s) = false /\ res = res_circuit_open /\ untouched s s') \/
+      (snd (gate_check c s) = true /\ r_cached res = true /\ br s' = b1 /\ zcalls s' = zcalls s /\
+       ycalls s' = ycalls s /\ spent s' = spent s /\ now s' = now s /\
+       (cache_ok (cache s) -> is_co (r_action res) = false)) \/
+      (snd (gate_check c s) = true /\ recorded c (now s') b1 res (br s') /\ zcalls s' = zcalls s + 1)
+  end.
+Proof.
+  unfold begin_req. destruct (arrive c s r) as [s2 [res|]] eqn:Ha; apply arrive_spec in Ha;
+    destruct Ha as (Hb & Hn & Hz & Hy & Hs & Hc & Hm); cbv zeta.
+  - intros H; inversion H; subst; clear H. split; [exact Hc|]. split; [destruct (0 <=? dur r) eqn:E; lia|].
+    destruct Hm as [(G & -> & U) | (G & Hca & Hcs & Hco)]; [left; auto|].
+    right. left. repeat split; auto.
+  - destruct w.
+    + intros H; inversion H; subst; clear H. cbn. split; [exact Hc|].
+      split; [destruct (0 <=? dur r) eqn:E; lia|]. repeat split; auto. lia.
+    + destruct (zb r) as [z|].
+      * intros H; inversion H; subst; clear H. cbn. split; [exact Hc|].
+        split; [destruct (0 <=? dur r) eqn:E; lia|]. repeat split; auto. lia.
+      * destruct (fail_req c (call_z c s2 (dur r))) as [s3 res] eqn:Hf.
+        intros H; inversion H; subst; clear H.
+        apply fail_req_spec in Hf. cbn in Hf. destruct Hf as (R & Fn & Fz & Fy & Fs & Fc).
+        split; [rewrite Fc; exact Hc|]. split; [destruct (0 <=? dur r) eqn:E; lia|].
+        right. right. split; [exact Hm|]. split; [|lia].
+        rewrite Fn, <- Hb. exact R.
+Qed.
+
+(* ---------------------------------------------------------------------- *)
+(* histories with overlapping requests                                     *)
+
+Definition cres_list (r : option (bool * result)) : list result :=
+  match r with Some (_, x) => [x] | None => [] end.
+
+(* no manual intervention / the clock never goes back (a suspended request goes on with the duration it was
+   begun with) *)
+Definition crequests_only (ops : list cop) : Prop :=
+  Forall (fun o => match o with Seq Reset | Seq ClearCache => False | _ => True end) ops.
+Definition cmonotone (ops : list cop) : Prop :=
+  Forall (fun o => match o with
+                   | Seq (Tick d) => 0 <= d | Seq (Run r) => 0 <= dur r | Begin _ r _ => 0 <= dur r
+                   | _ => True end) ops.
+Definition fl_monotone (fl : list flying) : Prop := Forall (fun f => 0 <= dur (f_req f)) fl.
+(* the request arrives in this operation *)
+Definition arrival (o : cop) : Prop :=
+  match o with Seq (Run _) | Begin _ _ _ => True | _ => False end.
+
+Lemma crun_cons c cs o rest :
+  crun c cs (o :: rest) =
+  let '(cs1, r) := cstep c cs o in
+  let '(cs2, rs) := crun c cs1 rest in
+  (cs2, match r with Some x => x :: rs | None => rs end).
+Proof. reflexivity. Qed.
+
+Lemma fly_lookup_in id fl f : fly_lookup id fl = Some f -> In f fl.
+Proof.
+  induction fl as [|g fl IH]; cbn; [discriminate|].
+  destruct (id =? f_id g); intros H; [inversion H; auto | auto].
+Qed.
+
+Lemma fly_remove_length id fl f :
+  fly_lookup id fl = Some f -> S (length (fly_remove id fl)) = length fl.
+Proof.
+  induction fl as [|g fl IH]; cbn; [discriminate|].
+  destruct (id =? f_id g); intros H; [reflexivity | cbn; rewrite IH; auto].
+Qed.
+
+Lemma fly_remove_forall P id fl : Forall P fl -> Forall P (fly_remove id fl).
+Proof.
+  induction fl as [|g fl IH]; cbn; intros H; [constructor|].
+  inversion H; subst. destruct (id =? f_id g); auto.
+Qed.
+
+(* one operation: the failure count grows by at most the failed answers, a trip needs the threshold *)
+Lemma cstep_count c s fl o s1 fl1 r :
+  interim c = false ->
+  binv (threshold c) (br s) -> cstep c (s, fl) o = ((s1, fl1), r) ->
+  binv (threshold c) (br s1) /\
+  fcount (br s1) <= fcount (br s) + count_failures (cres_list r) /\
+  trips (br s) <= trips (br s1) /\
+  (trips (br s) < trips (br s1) -> threshold c <= fcount (br s1)).
+Proof.
+  intros Hi Hb H.
+  pose proof (gate_check_binv c s Hb) as Hb1.
+  pose proof (gate_check_fields c s) as G. cbv zeta in G. destruct G as (Gf & Gt & _ & _).
+  assert (Hrec : forall t b x, binv (threshold c) b -> fcount b = fcount (br s) -> trips b = trips (br s) ->
+            recorded c t b x (br s1) ->
+            binv (threshold c) (br s1) /\
+            fcount (br s1) <= fcount (br s) + count_failures [x] /\
+            trips (br s) <= trips (br s1) /\
+            (trips (br s) < trips (br s1) -> threshold c <= fcount (br s1))).
+  { intros t b x Bb Bf Bt R. split; [eapply recorded_binv; eauto|].
+    rewrite count_failures_cons. change (count_failures []) with 0.
+    pose proof (recorded_count c t b x (br s1) Hi Bb R). lia. }
+  assert (Hsame : forall b l, binv (threshold c) b -> fcount b = fcount (br s) -> trips b = trips (br s) ->
+            br s1 = b ->
+            binv (threshold c) (br s1) /\
+            fcount (br s1) <= fcount (br s) + count_failures l /\
+            trips (br s) <= trips (br s1) /\
+            (trips (br s) < trips (br s1) -> threshold c <= fcount (br s1))).
+  { intros b l Bb Bf Bt ->. split; [exact Bb|]. assert (0 <= count_failures l) by (unfold count_failures; lia). lia. }
+  destruct o as [o' | id q w | id]; cbn [cstep] in H.
+  - destruct (step c s o') as [s' r'] eqn:E. inversion H; subst; clear H.
+    destruct (step_count c s o' s1 r' Hi Hb E) as (A1 & A2 & A3 & A4).
+    split; [exact A1|]. split; [|auto]. destruct r'; exact A2.
+  - destruct (begin_req c s q w) as [s' [res|]] eqn:E; inversion H; subst; clear H;
+      apply begin_req_spec in E; cbv zeta in E; destruct E as (_ & _ & E).
+    + destruct E as [(_ & _ & U) | [(_ & _ & Hbr & _) | (_ & R & _)]].
+      * destruct U as (U1 & _). apply (Hsame (br s)); auto.
+      * apply (Hsame (fst (gate_check c s))); auto.
+      * apply (Hrec (now s1) (fst (gate_check c s)) res); auto.
+    + destruct E as (_ & Hbr & _). apply (Hsame (fst (gate_check c s))); auto.
+  - destruct (fly_lookup id fl) as [f|] eqn:El.
+    + destruct (end_req c s f) as [s' res] eqn:E. inversion H; subst; clear H.
+      apply end_req_spec in E. destruct E as (R & _).
+      apply (Hrec (now s1) (br s) res); auto.
+    + inversion H; subst; clear H. apply (Hsame (br s1)); auto.
+Qed.
+
+Lemma crun_count c : interim c = false -> forall ops s fl s' fl' rs,
+  binv (threshold c) (br s) -> crun c (s, fl) ops = ((s', fl'), rs) ->
+  binv (threshold c) (br s') /\
+  fcount (br s') <= fcount (br s) + count_failures (map snd rs) /\
+  trips (br s) <= trips (br s') /\
+  (trips (br s) < trips (br s') -> threshold c <= fcount (br s) + count_failures (map snd rs)).
+Proof.
+  intros Hi. induction ops as [|o rest IH]; intros s fl s' fl' rs Hb H.
+  - inversion H; subst. change (count_failures (map snd [])) with 0. split; [exact Hb | lia].
+  - rewrite crun_cons in H. destruct (cstep c (s, fl) o) as [[s1 fl1] r] eqn:E.
+    destruct (crun c (s1, fl1) rest) as [[s2 fl2] rs2] eqn:E2. inversion H; subst; clear H.
+    destruct (cstep_count c s fl o s1 fl1 r Hi Hb E) as (Hb1 & Hf1 & Ht1 & Hx1).
+    destruct (IH s1 fl1 s' fl' rs2 Hb1 E2) as (Hb2 & Hf2 & Ht2 & Hx2).
+    assert (Hcf : count_failures (map snd (match r with Some x => x :: rs2 | None => rs2 end)) =
+                  count_failures (cres_list r) + count_failures (map snd rs2)).
+    { destruct r as [[tg x]|]; cbn [map snd cres_list];
+        [rewrite !count_failures_cons|]; change (count_failures []) with 0; lia. }
+    rewrite Hcf. assert (0 <= count_failures (map snd rs2)) by (unfold count_failures; lia).
+    assert (0 <= count_failures (cres_list r)) by (unfold count_failures; lia).
+    split; [exact Hb2|]. split; [lia|]. split; [lia|].
+    intros Ht. destruct (Z_lt_le_dec (trips (br s)) (trips (br s1))) as [l|l];
+      [specialize (Hx1 l) | assert (trips (br s1) < trips (br s')) as L by lia; specialize (Hx2 L)]; lia.
+Qed.
+
+Lemma overlap_open_implies_threshold_proof :
+  forall c s fl ops s' fl' rs,
+    interim c = false ->
+    circ (br s) = Closed -> fcount (br s) = 0 ->
+    crun c (s, fl) ops = ((s', fl'), rs) ->
+    (circ (br s') <> Closed ->
+       threshold c <= count_failures (map snd rs) /\ threshold c <= fcount (br s') /\
+       last_failure (br s') <> None) /\
+    (trips (br s) < trips (br s') -> threshold c <= count_failures (map snd rs)).
+Proof.
+  intros c s fl ops s' fl' rs Hint Hc Hf H.
+  assert (Hb : binv (threshold c) (br s)) by (split; [lia | congruence]).
+  destruct (crun_count c Hint ops s fl s' fl' rs Hb H) as ([_ Hi] & Hle & _ & Ht).
+  split; [intros Hn; destruct (Hi Hn) | intros L; specialize (Ht L)]; repeat split; auto; lia.
+Qed.
+
+(* the invariant *)
+Lemma cstep_inv c s fl o s1 fl1 r : inv c s -> cstep c (s, fl) o = ((s1, fl1), r) -> inv c s1.
+Proof.
+  intros [Hb Hc] H.
+  pose proof (gate_check_binv c s Hb) as Hb1.
+  destruct o as [o' | id q w | id]; cbn [cstep] in H.
+  - destruct (step c s o') as [s' r'] eqn:E. inversion H; subst; clear H.
+    eapply step_inv; [split; eauto | eauto].
+  - destruct (begin_req c s q w) as [s' [res|]] eqn:E; inversion H; subst; clear H;
+      apply begin_req_spec in E; cbv zeta in E; destruct E as (Hck & _ & E); (split; [|auto]).
+    + destruct E as [(_ & _ & U) | [(_ & _ & Hbr & _) | (_ & R & _)]].
+      * destruct U as (-> & _). exact Hb.
+      * rewrite Hbr. exact Hb1.
+      * exact (recorded_binv c _ _ _ _ Hb1 R).
+    + destruct E as (_ & -> & _). exact Hb1.
+  - destruct (fly_lookup id fl) as [f|] eqn:El.
+    + destruct (end_req c s f) as [s' res] eqn:E. inversion H; subst; clear H.
+      apply end_req_spec in E. destruct E as (R & _ & _ & _ & _ & Hck).
+      split; [exact (recorded_binv c _ _ _ _ Hb R) | auto].
+    + inversion H; subst; clear H. split; assumption.
+Qed.
+
+Lemma crun_inv c : forall ops s fl s' fl' rs,
+  inv c s -> crun c (s, fl) ops = ((s', fl'), rs) -> inv c s'.
+Proof.
+  induction ops as [|o rest IH]; intros s fl s' fl' rs Hi H.
+  - inversion H; subst. exact Hi.
+  - rewrite crun_cons in H. destruct (cstep c (s, fl) o) as [[s1 fl1] r] eqn:E.
+    destruct (crun c (s1, fl1) rest) as [[s2 fl2] rs2] eqn:E2. inversion H; subst.
+    eapply IH; [eapply cstep_inv; eauto | eauto].
+Qed.
+
+Lemma overlap_inv_reachable_proof :
+  forall c ops s' fl' rs, crun c (init, []) ops = ((s', fl'), rs) -> inv c s'.
+Proof. intros. eapply crun_inv; [apply inv_init | eauto]. Qed.
+
+(* ---------------------------------------------------------------------- *)
+(* isolation while OPEN, with requests still in flight                     *)
+
+Lemma cstep_now_mono c s fl o s1 fl1 r :
+  cmonotone [o] -> fl_monotone fl -> cstep c (s, fl) o = ((s1, fl1), r) ->
+  now s <= now s1 /\ fl_monotone fl1.
+Proof.
+  intros Hm Hfl H. inversion Hm as [|? ? Ho _]; subst.
+  destruct o as [o' | id q w | id]; cbn [cstep] in H.
+  - destruct (step c s o') as [s' r'] eqn:E. inversion H; subst; clear H. split; [|exact Hfl].
+    destruct o' as [d | q | |]; cbn in E.
+    + inversion E; subst. cbn. lia.
+    + destruct (run_req c s q) as [s1' x] eqn:Eq. inversion E; subst.
+      destruct (run_req_now c s q s1 x Eq); lia.
+    + inversion E; subst. cbn. lia.
+    + inversion E; subst. cbn. lia.
+  - destruct (begin_req c s q w) as [s' [res|]] eqn:E; inversion H; subst; clear H;
+      apply begin_req_spec in E; cbv zeta in E; destruct E as (_ & Hn & _);
+      (destruct (0 <=? dur q) eqn:Ed; [|lia]).
+    + split; [lia | exact Hfl].
+    + split; [lia|]. constructor; [exact Ho | exact Hfl].
+  - destruct (fly_lookup id fl) as [f|] eqn:El.
+    + destruct (end_req c s f) as [s' res] eqn:E. inversion H; subst; clear H.
+      apply end_req_spec in E. destruct E as (_ & Hn & _).
+      assert (0 <= dur (f_req f)).
+      { unfold fl_monotone in Hfl. rewrite Forall_forall in Hfl. apply Hfl. eapply fly_lookup_in; eauto. }
+      split; [destruct Hn; lia | apply fly_remove_forall; exact Hfl].
+    + inversion H; subst; clear H. split; [lia | exact Hfl].
+Qed.
+
+Lemma crun_now_mono c : forall ops s fl s' fl' rs,
+  cmonotone ops -> fl_monotone fl -> crun c (s, fl) ops = ((s', fl'), rs) -> now s <= now s'.
+Proof.
+  induction ops as [|o rest IH]; intros s fl s' fl' rs Hm Hfl H.
+  - inversion H; subst. lia.
+  - rewrite crun_cons in H. inversion Hm as [|? ? Ho Hm']; subst.
+    destruct (cstep c (s, fl) o) as [[s1 fl1] r] eqn:E.
+    destruct (crun c (s1, fl1) rest) as [[s2 fl2] rs2] eqn:E2. inversion H; subst; clear H.
+    destruct (cstep_now_mono c s fl o s1 fl1 r) as (N1 & F1); auto.
+    { constructor; [exact Ho | constructor]. }
+    specialize (IH s1 fl1 s' fl' rs2 Hm' F1 E2). lia.
+Qed.
+
+(* While OPEN and less than the recovery timeout after the last failure: every request that ARRIVES is answered
+   CIRCUIT_OPEN, the executor is never invoked, no request gets in flight; requests that were admitted earlier
+   and are answered now cannot close the breaker or clear its count whatever their outcome (a failure among them
+   only moves last_failure later); the assessor is invoked / energy is spent at most once per such request. *)
+Lemma overlap_open_isolates_proof :
+  forall c ops s fl lf s' fl' rs,
+    enabled c = true -> circ (br s) = Open -> last_failure (br s) = Some lf -> lf <= now s ->
+    crequests_only ops -> cmonotone ops -> fl_monotone fl ->
+    crun c (s, fl) ops = ((s', fl'), rs) -> now s' - lf < timeout c ->
+    Forall (fun x => fst x = true -> snd x = res_circuit_open) rs /\
+    circ (br s') = Open /\
+    (exists lf', last_failure (br s') = Some lf' /\ lf <= lf' /\ lf' <= now s') /\
+    fcount (br s) <= fcount (br s') /\ trips (br s') = trips (br s) /\ zcalls s' = zcalls s /\
+    (length fl' <= length fl)%nat /\
+    0 <= ycalls s' - ycalls s <= Z.of_nat (length fl) - Z.of_nat (length fl') /\
+    spent s' = spent s + cost c * (ycalls s' - ycalls s).
+Proof.
+  intros c ops. induction ops as [|o rest IH]; intros s fl lf s' fl' rs He Hc Hlf Hle Hro Hm Hfl H Ht.
+  - inversion H; subst. repeat split; auto; try lia. exists lf. repeat split; auto; lia.
+  - pose proof (crun_now_mono c (o :: rest) s fl s' fl' rs Hm Hfl H) as Hnow.
+    rewrite crun_cons in H.
+    inversion Hro as [|? ? Ho Hro']; inversion Hm as [|? ? Hmo Hm']; subst.
+    destruct (cstep c (s, fl) o) as [[s1 fl1] r] eqn:E.
+    destruct (crun c (s1, fl1) rest) as [[s2 fl2] rs2] eqn:E2. inversion H; subst; clear H.
+    destruct (cstep_now_mono c s fl o s1 fl1 r) as (N1 & F1); auto.
+    { constructor; [exact Hmo | constructor]. }
+    pose proof (crun_now_mono c rest s1 fl1 s' fl' rs2 Hm' F1 E2) as N2.
+    assert (Hg : snd (gate_check c s) = false).
+    { rewrite (gate_check_open_early c s lf) by (auto; lia). reflexivity. }
+    (* an operation that leaves everything but the request counter alone *)
+    assert (Hquiet : br s1 = br s -> zcalls s1 = zcalls s -> ycalls s1 = ycalls s -> spent s1 = spent s ->
+              fl1 = fl -> (forall x, r = Some x -> fst x = true -> snd x = res_circuit_open) ->
+              Forall (fun x => fst x = true -> snd x = res_circuit_open)
+                     (match r with Some x => x :: rs2 | None => rs2 end) /\
+              circ (br s') = Open /\
+              (exists lf', last_failure (br s') = Some lf' /\ lf <= lf' /\ lf' <= now s') /\
+              fcount (br s) <= fcount (br s') /\ trips (br s') = trips (br s) /\ zcalls s' = zcalls s /\
+              (length fl' <= length fl)%nat /\
+              0 <= ycalls s' - ycalls s <= Z.of_nat (length fl) - Z.of_nat (length fl') /\
+              spent s' = spent s + cost c * (ycalls s' - ycalls s)).
+    { intros Eb Ez Ey Es Ef Hr. subst fl1.
+      destruct (IH s1 fl lf s' fl' rs2 He) as (I1 & I2 & I3 & I4 & I5 & I6 & I7 & I8 & I9);
+        auto; try congruence; try lia.
+      rewrite Eb, Ez, Ey, Es in *. repeat split; auto; try lia.
+      destruct r as [x|]; [constructor; auto | exact I1]. }
+    destruct o as [o' | id q w | id]; cbn [cstep] in E.
+    + destruct o' as [d | q | |]; cbn [step] in E; try contradiction.
+      * inversion E; subst; clear E. apply Hquiet; auto; discriminate.
+      * destruct (run_req c s q) as [s1' x] eqn:Eq. inversion E; subst; clear E.
+        destruct (run_req_refused c s q s1 x Hg Eq) as (-> & Ub & Uz & Uy & Us & Uc & Un).
+        apply Hquiet; auto. intros y Ey _. inversion Ey; subst. reflexivity.
+    + destruct (begin_req c s q w) as [s1' [res|]] eqn:Eb; inversion E; subst; clear E;
+        apply begin_req_spec in Eb; cbv zeta in Eb; destruct Eb as (_ & _ & Eb).
+      * destruct Eb as [(_ & -> & U) | [(G & _) | (G & _)]]; try congruence.
+        destruct U as (Ub & Uz & Uy & Us & Uc & Un).
+        apply Hquiet; auto. intros y Ey _. inversion Ey; subst. reflexivity.
+      * destruct Eb as (G & _). congruence.
+    + destruct (fly_lookup id fl) as [f|] eqn:El.
+      * destruct (end_req c s f) as [s1' res] eqn:Ee. inversion E; subst; clear E.
+        apply end_req_spec in Ee. destruct Ee as (R & _ & Ez & Ey & Es & _).
+        destruct (recorded_open c (now s1) (br s) res (br s1) Hc R) as (Ro & Rf & Rt & Rl).
+        pose proof (fly_remove_length id fl f El) as Hlen.
+        assert (exists lf1, last_failure (br s1) = Some lf1 /\ lf <= lf1 /\ lf1 <= now s1) as (lf1 & L1 & L2 & L3).
+        { destruct Rl as [Rl | Rl]; [exists lf; rewrite Rl; auto with zarith | exists (now s1); auto with zarith]. }
+        destruct (IH s1 (fly_remove id fl) lf1 s' fl' rs2 He Ro L1 L3 Hro' Hm' F1 E2)
+          as (I1 & I2 & (lf' & I3 & I3a & I3b) & I4 & I5 & I6 & I7 & I8 & I9); [lia|].
+        split; [constructor; [cbn; discriminate | exact I1]|].
+        split; [exact I2|]. split; [exists lf'; repeat split; auto; lia|].
+        rewrite <- Hlen. cbn [length]. rewrite Nat2Z.inj_succ.
+        repeat split; lia.
+      * inversion E; subst; clear E. apply Hquiet; auto; discriminate.
+Qed.
+
+(* One operation of a history with overlapping requests, from OPEN: the breaker is still OPEN afterwards with a
+   failure count that has not gone down - unless the operation is a manual reset, or a request that ARRIVES with
+   the breaker enabled once the recovery timeout has elapsed since the last failure.  In particular the answer
+   of a request that had been admitted earlier never ends the isolation. *)
+Lemma open_left_only_proof :
+  forall c s fl o s' fl' r,
+    circ (br s) = Open -> cstep c (s, fl) o = ((s', fl'), r) ->
+    (circ (br s') = Open /\ fcount (br s) <= fcount (br s') /\ trips (br s') = trips (br s)) \/
+    o = Seq Reset \/
+    (arrival o /\ enabled c = true /\ probe_state c s).
+Proof.
+  intros c s fl o s' fl' r Hc H.
+  pose proof (gate_check_fields c s) as G. cbv zeta in G. destruct G as (Gf & Gt & _ & Gc).
+  (* the breaker after the circuit check: still OPEN (breaker disabled), or a probe was admitted *)
+  assert (Hgate : forall o0, arrival o0 -> o = o0 ->
+            (forall t x b', recorded c t (fst (gate_check c s)) x b' \/ b' = fst (gate_check c s) ->
+               b' = br s' ->
+               (circ (br s') = Open /\ fcount (br s) <= fcount (br s') /\ trips (br s') = trips (br s)) \/
+               o = Seq Reset \/ (arrival o /\ enabled c = true /\ probe_state c s))).
+  { intros o0 Ha -> t x b' Hb' ->.
+    destruct Gc as [Gc | (_ & Gh & Ge & _ & lf & Gl & Gt')].
+    - left. rewrite Hc in Gc. destruct Hb' as [R | ->].
+      + destruct (recorded_open c t _ x _ Gc R) as (A & B & C & _). repeat split; auto; lia.
+      + repeat split; auto; lia.
+    - right. right. split; [exact Ha|]. split; [exact Ge|]. right. split; [exact Hc|]. exists lf. auto. }
+  destruct o as [o' | id q w | id]; cbn [cstep] in H.
+  - destruct (step c s o') as [s1 r'] eqn:E. inversion H; subst; clear H.
+    destruct o' as [d | q | |]; cbn in E.
+    + inversion E; subst. left. cbn. repeat split; auto; lia.
+    + destruct (run_req c s q) as [s1' x] eqn:Eq. inversion E; subst; clear E.
+      apply run_req_cases in Eq. cbv zeta in Eq.
+      destruct Eq as [(_ & _ & U) | [(_ & _ & _ & Hb & _) | (_ & _ & _ & _ & _ & _ & _ & Hb)]].
+      * destruct U as (-> & _). left. repeat split; auto; lia.
+      * apply (Hgate (Seq (Run q)) I eq_refl 0 res_error (br s')); auto.
+      * apply (Hgate (Seq (Run q)) I eq_refl (now s') x (br s')); auto.
+    + right. left. reflexivity.
+    + inversion E; subst. left. cbn. repeat split; auto; lia.
+  - destruct (begin_req c s q w) as [s1 [res|]] eqn:E; inversion H; subst; clear H;
+      apply begin_req_spec in E; cbv zeta in E; destruct E as (_ & _ & E).
+    + destruct E as [(_ & _ & U) | [(_ & _ & Hb & _) | (_ & R & _)]].
+      * destruct U as (-> & _). left. repeat split; auto; lia.
+      * apply (Hgate (Begin id q w) I eq_refl 0 res_error (br s')); auto.
+      * apply (Hgate (Begin id q w) I eq_refl (now s') res (br s')); auto.
+    + destruct E as (_ & Hb & _). apply (Hgate (Begin id q w) I eq_refl 0 res_error (br s')); auto.
+  - left. destruct (fly_lookup id fl) as [f|] eqn:El.
+    + destruct (end_req c s f) as [s1 res] eqn:E. inversion H; subst; clear H.
+      apply end_req_spec in E. destruct E as (R & _).
+      destruct (recorded_open c (now s') (br s) res (br s') Hc R) as (A & B & C & _). auto.
+    + inversion H; subst; clear H. repeat split; auto; lia.
+Qed.
+
+(* ---------------------------------------------------------------------- *)
+(* the overlapping language contains the sequential one                    *)
+
+Lemma crun_seq c : forall ops s fl,
+  crun c (s, fl) (map Seq ops) =
+  let '(s', rs) := run_ops c s ops in ((s', fl), map (pair true) rs).
+Proof.
+  induction ops as [|o rest IH]; intros s fl; [reflexivity|].
+  cbn [map]. rewrite crun_cons, run_ops_cons. cbn [cstep].
+  destruct (step c s o) as [s1 r]. rewrite IH.
+  destruct (run_ops c s1 rest) as [s2 rs]. destruct r; reflexivity.
+Qed.
+
+(* a request that is begun and ended at once is the request run in one piece *)
+Lemma begin_end_is_run c s fl id r w s' res :
+  fly_lookup id fl = None -> run_req c s r = (s', res) ->
+  exists tag, crun c (s, fl) [Begin id r w; End id] = ((s', fl), [(tag, res)]).
+Proof.
+  intros Hfree H. rewrite run_req_phases in H.
+  cbn [crun cstep]. unfold begin_req.
+  destruct (arrive c s r) as [s2 [x|]] eqn:Ha.
+  - inversion H; subst; clear H. exists true. cbn [cstep]. rewrite Hfree. reflexivity.
+  - destruct w.
+    + exists false. cbn [cstep fly_lookup fly_remove f_id]. rewrite Z.eqb_refl.
+      unfold end_req. cbn [f_place f_req].
+      rewrite advance_call_z, H. reflexivity.
+    + unfold finish_z in H. destruct (zb r) as [z|] eqn:Hz.
+      * exists false. cbn [cstep fly_lookup fly_remove f_id]. rewrite Z.eqb_refl.
+        unfold end_req. cbn [f_place f_req]. rewrite Hz, H. reflexivity.
+      * exists true. rewrite H. cbn [cstep]. rewrite Hfree. reflexivity.
+Qed.
+
+(* crun and ctrace are the same history *)
+Lemma ctrace_crun c : forall ops cs,
+  crun c cs ops =
+  (last (map (fun x => snd (fst x)) (ctrace c cs ops)) cs,
+   flat_map (fun x => match snd x with Some r => [r] | None => [] end) (ctrace c cs ops)).
+Proof.
+  induction ops as [|o rest IH]; intros cs; [reflexivity|].
+  rewrite crun_cons. cbn [ctrace]. destruct (cstep c cs o) as [cs1 r] eqn:E.
+  rewrite IH. cbn [map flat_map fst snd]. rewrite last_cons.
+  destruct r; reflexivity.
+Qed.
